@@ -23,13 +23,13 @@ except common.BuildError as e:
     chk.inconclusive_because(str(e)); chk.finish()
 
 # pinned input of the finding illcond/runaway-step, replayed first in every run
-pin_stats, _ = hcheck.run_shards(chk, exe, ["--pinned"], 1, timeout=300, abort_key="abort")
+pin_stats, _ = hcheck.run_shards(chk, exe, ["--pinned"], 1, timeout=120, abort_key="abort", hang_key="interact/no-termination")
 
 shards = 8 if quick else 16
 packets = 125000 if quick else 3200000          # per shard: 1e6 quick, ~5e7 thorough
 # a crash / abort inside the traversal of an in-domain packet is itself a violation
 stats, statd = hcheck.run_shards(chk, exe, ["--packets", str(packets)], shards,
-                                 timeout=600 if quick else 7200, abort_key="abort")
+                                 timeout=400 if quick else 7200, abort_key="abort", hang_key="interact/no-termination")
 if exe_asan:
     env = {"ASAN_OPTIONS": "abort_on_error=1:detect_leaks=0", "UBSAN_OPTIONS": "print_stacktrace=1"}
     s2, _ = hcheck.run_shards(chk, exe_asan, ["--packets", "65000"], 16, timeout=7200, env=env,
